@@ -301,6 +301,78 @@ func TestC01Ex(t *testing.T) {
 			}
 		}
 	}
+	// the same limit where the accelerated match finders pack two literals per token (about 65534 bytes
+	// of incompressible data), with runs short enough not to be re-counted by the scalar tail
+	for d := -140; d <= 40; d++ {
+		if !thorough() && d%2 != 0 {
+			continue
+		}
+		for _, runLen := range []int{300, 520, 1300} {
+			for _, lvl := range []int{1, 2} {
+				c := C01Case{Set: WSetting{Ctor: "new", Level: lvl}}
+				c.Data = gen.Recipe{Segs: []gen.Seg{{Kind: "rand", N: 65534 + d, A: 256, Seed: 21}, {Kind: "run", N: runLen, A: 0x42}, {Kind: "text", N: 40, Seed: 2}}}
+				c.Ops = []gen.Op{{K: "W", N: c.Data.Len()}}
+				if d%4 == 0 {
+					c.Ops = []gen.Op{{K: "W", N: 100}, {K: "F"}, {K: "W", N: c.Data.Len() - 100}}
+				}
+				done := begin("C01", c)
+				labels, nt, err := checkC01(c)
+				done()
+				if err != nil {
+					saveLast("C01", c, err)
+					t.Fatalf("C01 violated (token-limit enumeration, two literals per token): %v", err)
+				}
+				stats.Record("C01", stats.Digest(c), nt, append(labels, "token-limit-enumeration-2"), func() any { return c })
+				tl++
+			}
+		}
+	}
+	// exact Fibonacci byte counts over k values: the deepest literal tree a block of that size can have
+	// (21 for one 64 KiB Huffman-only block), so the length limiter does the most work it ever does
+	for k := 14; k <= 23; k++ {
+		for variant := 0; variant <= 1; variant++ {
+			fa, fb, sum := 1, 1+variant, 0
+			for i := 0; i < k; i++ {
+				sum += fa
+				fa, fb = fb, fa+fb
+			}
+			for _, set := range []WSetting{{Ctor: "new", Level: -2}, {Ctor: "4k", Level: -2}, {Ctor: "new", Level: 1}, {Ctor: "new", Level: 2}} {
+				c := C01Case{Set: set}
+				c.Data = gen.Recipe{Segs: []gen.Seg{{Kind: "fib", N: sum, A: k, B: variant, Seed: uint64(k)}}}
+				c.Ops = []gen.Op{{K: "W", N: c.Data.Len()}}
+				done := begin("C01", c)
+				labels, nt, err := checkC01(c)
+				done()
+				if err != nil {
+					saveLast("C01", c, err)
+					t.Fatalf("C01 violated (exact Fibonacci counts over %d values): %v", k, err)
+				}
+				stats.Record("C01", stats.Digest(c), nt, append(labels, "fibonacci-depth-enumeration"), func() any { return c })
+				tl++
+			}
+		}
+	}
+	// buffer phase against token count for the 4 KiB window: k zero bytes, then incompressible data
+	// (the first full block of a fresh Writer ends with every possible number of pending tokens)
+	for k := 3900; k <= 4300; k++ {
+		if !thorough() && k%2 != 0 {
+			continue
+		}
+		for _, lvl := range []int{2, -1, 1} {
+			c := C01Case{Set: WSetting{Ctor: "4k", Level: lvl}}
+			c.Data = gen.Recipe{Segs: []gen.Seg{{Kind: "run", N: k, A: 0}, {Kind: "rand", N: 80000, A: 256, Seed: 5}}}
+			c.Ops = []gen.Op{{K: "W", N: c.Data.Len()}}
+			done := begin("C01", c)
+			labels, nt, err := checkC01(c)
+			done()
+			if err != nil {
+				saveLast("C01", c, err)
+				t.Fatalf("C01 violated (4K-window phase sweep): %v", err)
+			}
+			stats.Record("C01", stats.Digest(c), nt, append(labels, "4k-phase-sweep"), func() any { return c })
+			tl++
+		}
+	}
 	stats.Exhaustive("C01", fmt.Sprintf("token-limit family: 32767+d incompressible bytes then a 1300-byte run or period-7 repeat, d in [-270,6] step %d x {new,4k} x {1,2}", step), tl)
 	stats.Exhaustive("C01", fmt.Sprintf("lengths T+d, d in [-%d,%d], T in %v x {new,4k} x {-2,1,2} x {one write, split at T-1} x {text, 4-symbol random}", dmax, dmax, gen.Thresholds), count)
 }
